@@ -62,8 +62,12 @@ class TunnelEncap(Attribute):
         return self._attribute(value)
 
     def json(self, compact: bool | None = None) -> str:
-        parts = ', '.join(tlv.json() for tlv in self.tunnel_tlvs)
-        return '{' + parts + '}'
+        # one entry per name: two tunnel TLVs of the same type would otherwise be a duplicate key
+        named: dict[str, str] = {}
+        for tlv in self.tunnel_tlvs:
+            rendered = tlv.json()
+            named.setdefault(rendered.split(':', 1)[0], rendered)
+        return '{' + ', '.join(named.values()) + '}'
 
     def __str__(self) -> str:
         return 'tunnel-encap [' + ', '.join(str(t) for t in self.tunnel_tlvs) + ']'
